@@ -363,7 +363,10 @@ messageTypeSwitching:
 	case *objects.BadServerSalt:
 		m.serverSalt = message.NewSalt
 		err := m.SaveSession()
-		check(err)
+		if err != nil {
+			// session storage is out of order: it's a reason to warn, not to kill the reading routine (and the app)
+			m.warnError(errors.Wrap(err, "saving session"))
+		}
 
 		// only the request rejected by server must be repeated: all others are accepted (or will be rejected
 		// by their own bad_server_salt). waiter gets new channel on retry, so this one must be forgotten
